@@ -184,6 +184,50 @@ Alts(nt) ==
             \* inside a command substitution, followed by one outside
             A(1, <<M("ln["), M("ao["), M("pl["), M("c["), M("simple["), T("a")>> \o WLit("a") \o <<M("w["), T("$("), M("cs$["), M("ln["), M("ao["), M("pl[")>> \o CatA
                    \o <<H, M("]c"), M("]pl"), M("]ao"), M("]ln"), NL, T(")"), M("]cs"), M("]w"), M("]simple"), H, M("]c"), M("]pl"), M("]ao"), M("]ln"), NLF>>) >>
+    \* ------------------------------------------------------------ printer focus (C05, C18)
+    \* compound commands whose printing depends on separators and on the line structure: every combination
+    \* of list terminators (; & newline) in conditions, bodies and case items, single-line and multi-line
+    [] nt.n = "pl0" ->      \* a compound list in front of a closer, every alternative at cost 0
+         LET Ao(e) == <<M("ao["), M("pl["), M("c["), M("simple["), T("a")>> \o WLit("a") \o <<M("]simple"), M("]c"), M("]pl")>>
+                     \o (IF e = "" THEN <<>> ELSE <<(IF e = ";" THEN TS(";") ELSE TL("&")), M("sep:" \o e)>>) \o <<M("]ao")>>
+         IN
+         << [c |-> 0, r |-> <<M("ln[")>> \o Ao(";") \o <<M("]ln")>>],
+            [c |-> 0, r |-> <<M("ln[")>> \o Ao("&") \o <<M("]ln")>>],
+            [c |-> 0, r |-> <<M("ln[")>> \o Ao("") \o <<M("]ln"), NL>>],
+            [c |-> 0, r |-> <<M("ln[")>> \o Ao(";") \o Ao(";") \o <<M("]ln")>>],
+            [c |-> 0, r |-> <<M("ln[")>> \o Ao(";") \o <<M("]ln"), NL>>],
+            [c |-> 0, r |-> <<M("ln[")>> \o Ao("") \o <<M("]ln"), NL, M("ln[")>> \o Ao("&") \o <<M("]ln"), NL>>] >>
+    [] nt.n = "pb0" ->      \* the body of a case item in front of ;;
+         LET Ao(e) == <<M("ao["), M("pl["), M("c["), M("simple["), T("a")>> \o WLit("a") \o <<M("]simple"), M("]c"), M("]pl")>>
+                     \o (IF e = "" THEN <<>> ELSE <<(IF e = ";" THEN TS(";") ELSE TL("&")), M("sep:" \o e)>>) \o <<M("]ao")>>
+         IN
+         << [c |-> 0, r |-> <<>>],
+            [c |-> 0, r |-> <<M("ln[")>> \o Ao("") \o <<M("]ln")>>],
+            [c |-> 0, r |-> <<M("ln[")>> \o Ao(";") \o <<M("]ln")>>],
+            [c |-> 0, r |-> <<M("ln[")>> \o Ao("&") \o <<M("]ln")>>],
+            [c |-> 0, r |-> <<M("ln[")>> \o Ao(";") \o Ao("") \o <<M("]ln")>>] >>
+    [] nt.n = "pi0" ->      \* one case item
+         << [c |-> 0, r |-> <<M("item["), M("pats["), T("p*")>> \o WLit("p*") \o <<M("]pats"), TL(")"), NT("pb0", 2, FALSE, TRUE, FALSE, ""),
+                              TL(";;"), M("op:;;"), M("]item")>>] >>
+    [] nt.n = "prprog" ->
+         LET L == NT("pl0", 2, FALSE, TRUE, FALSE, "")
+             I == NT("pi0", 2, FALSE, TRUE, FALSE, "")
+             Wrap(r) == <<M("ln["), M("ao["), M("pl["), M("c[")>> \o r \o <<M("]c"), M("]pl"), M("]ao"), M("]ln"), NLF>>
+             If(e) == <<TL("if"), M("if["), M("cond["), L, M("]cond"), TL("then"), M("then["), L, M("]then")>> \o e \o <<T("fi"), M("]if")>>
+         IN
+         << A(0, Wrap(<<T("case"), M("case[")>> \o <<T("a")>> \o WLit("a") \o <<TL("in"), I, I, T("esac"), M("]case")>>)),
+            A(1, Wrap(<<T("case"), M("case[")>> \o <<T("a")>> \o WLit("a") \o <<TL("in"), I, I, I, T("esac"), M("]case")>>)),
+            A(1, Wrap(<<T("case"), M("case[")>> \o <<T("a")>> \o WLit("a") \o <<TL("in"), NLB, I, NLB, I, NLB, T("esac"), M("]case")>>)),
+            A(1, Wrap(If(<<>>))),
+            A(1, Wrap(If(<<TL("else"), M("else["), L, M("]else")>>))),
+            A(1, Wrap(If(<<TL("elif"), M("elif["), M("cond["), L, M("]cond"), TL("then"), M("then["), L, M("]then"), M("]elif")>>))),
+            A(1, Wrap(<<TL("while"), M("while["), M("cond["), L, M("]cond"), TL("do"), M("do["), L, M("]do"), T("done"), M("]while")>>)),
+            A(1, Wrap(<<TL("until"), M("until["), M("cond["), L, M("]cond"), TL("do"), M("do["), L, M("]do"), T("done"), M("]until")>>)),
+            A(1, Wrap(<<T("for"), M("for["), T("x"), M("name:x"), T("in"), M("in["), T("a")>> \o WLit("a") \o <<M("]in"), TS(";"), M("forsemi"),
+                        TL("do"), M("do["), L, M("]do"), T("done"), M("]for")>>)),
+            A(1, Wrap(<<T("for"), M("for["), T("x"), M("name:x"), NLB, TL("do"), M("do["), L, M("]do"), T("done"), M("]for")>>)),
+            A(1, Wrap(<<TL("{"), M("grp["), L, T("}"), M("]grp")>>)),
+            A(1, Wrap(<<TL("("), M("sub["), L, T(")"), M("]sub")>>)) >>
     [] nt.n = "list" ->   \* and-or lists joined by ; or &; the last one carries nt.end
          << A(0, <<SameE(nt, "ao", nt.end)>>),
             A(1, <<SameE(nt, "ao", ";"), SameE(nt, "list", nt.end)>>),
